@@ -396,6 +396,10 @@ def stack(arrays, axis=None, keys=None, align=False, **kwargs):
         kwargs['strict'] = True
         arrays = align_(arrays, **kwargs)
 
+    # inputs are matched by dimension name: same dimensions in another order are transposed
+    arrays = [a if a.dims == arrays[0].dims or set(a.dims) != set(arrays[0].dims)
+              else a.transpose(arrays[0].dims) for a in arrays]
+
     # make it a numpy array
     data = [a.values for a in arrays]
     data = np.array(data)
@@ -523,6 +527,10 @@ def concatenate(arrays, axis=0, _no_check=False, align=False, **kwargs):
         for ax in arrays[0].axes:
             if ax.name != dim:
                 arrays = align_(arrays, axis=ax.name, **kwargs)
+
+    # inputs are matched by dimension name: same dimensions in another order are transposed
+    arrays = [a if a.dims == arrays[0].dims or set(a.dims) != set(arrays[0].dims)
+              else a.transpose(arrays[0].dims) for a in arrays]
 
     values = np.concatenate([a.values for a in arrays], axis=axis)
 
